@@ -3,10 +3,12 @@
 should notice, revert. Each mutant compiles and passes the pinned test-suite (verified with
 --suite). Usage:
     tools/mutants.py list
-    tools/mutants.py run [name ...]      # default: all; writes out/mutants.json
-    tools/mutants.py suite [name ...]    # run the repository's own tests against each mutant
-Never leaves /repo modified (git checkout -- src on exit)."""
-import json, os, subprocess, sys, time
+    tools/mutants.py run [--par N] [name ...]      # default: all; writes out/mutants-run.json
+    tools/mutants.py suite [--par N] [name ...]    # run the repository's own tests against each mutant
+Each mutant is applied to a scratch worktree of /repo (tools/scratch.py); /repo is never touched."""
+import concurrent.futures, json, os, sys
+sys.path.insert(0, os.path.dirname(os.path.abspath(__file__)))
+from scratch import Worktree
 
 REPO = "/repo"
 VERIF = "/verif"
@@ -132,17 +134,9 @@ M = [
 ]
 
 
-def sh(cmd, timeout=3600):
-    return subprocess.run(cmd, shell=True, capture_output=True, text=True, timeout=timeout)
-
-
-def revert():
-    sh(f"git -C {REPO} checkout -- src")
-
-
-def apply(m):
+def apply(m, root):
     name, f, old, new, props, note = m
-    p = os.path.join(REPO, f)
+    p = os.path.join(root, f)
     s = open(p).read()
     if s.count(old) != 1:
         return f"anchor matches {s.count(old)} times"
@@ -152,45 +146,40 @@ def apply(m):
 
 def main():
     mode = sys.argv[1] if len(sys.argv) > 1 else "list"
-    names = sys.argv[2:]
-    todo = [m for m in M if not names or m[0] in names]
+    args = sys.argv[2:]
+    par = 1
+    if args[:1] == ["--par"]:
+        par, args = int(args[1]), args[2:]
+    todo = [m for m in M if not args or m[0] in args]
     if mode == "list":
         for m in M:
             print(f"{m[0]:36} {','.join(m[4]):12} {m[5]}")
         return
-    if sh(f"git -C {REPO} status --porcelain -- src").stdout.strip():
-        print("refusing: /repo/src has uncommitted changes", file=sys.stderr)
-        sys.exit(2)
-    results = []
-    try:
-        for m in todo:
-            name, f, old, new, props, note = m
-            err = apply(m)
+    jobs = max(2, 16 // par)
+
+    def one(m):
+        name, f, old, new, props, note = m
+        with Worktree("mutant") as wt:
+            err = apply(m, wt.path)
             if err:
-                results.append({"mutant": name, "error": err})
-                print(f"{name}: ANCHOR PROBLEM {err}")
-                revert()
-                continue
+                return {"mutant": name, "error": err}
             if mode == "suite":
-                r = sh(f"cd {REPO} && timeout 1500 cargo test --workspace --no-fail-fast --offline 2>&1 | grep -E '^test result|error(\\[|:)' | head -20")
-                ok = "FAILED" not in r.stdout and "error" not in r.stdout and "test result" in r.stdout
-                print(f"{name}: suite {'passes' if ok else 'FAILS'}")
-                results.append({"mutant": name, "suite_passes": ok, "out": r.stdout[-400:]})
+                ok, out = wt.suite_passes()
+                return {"mutant": name, "suite_passes": ok, "out": out}
+            caught = {p: wt.check(p, jobs=jobs) for p in props}
+            hit = [p for p in props if caught[p]["violations"] > 0]
+            return {"mutant": name, "note": note, "expected": props, "caught_by": hit, "detail": caught}
+
+    results = []
+    with concurrent.futures.ThreadPoolExecutor(par) as ex:
+        for r in ex.map(one, todo):
+            results.append(r)
+            if "error" in r:
+                print(f"{r['mutant']}: ANCHOR PROBLEM {r['error']}", flush=True)
+            elif mode == "suite":
+                print(f"{r['mutant']}: suite {'passes' if r['suite_passes'] else 'FAILS'}", flush=True)
             else:
-                caught = {}
-                for p in props:
-                    t0 = time.time()
-                    r = sh(f"cd {VERIF} && VERIF_EVIDENCE_DIR={VERIF}/out/evidence-mutants timeout 1800 ./check {p} quick 2>&1 | tail -30")
-                    viol = [l for l in r.stdout.splitlines() if l.startswith("VIOLATION")]
-                    harness = [l for l in r.stdout.splitlines() if "HARNESS-ERROR" in l]
-                    caught[p] = {"violations": len(viol), "harness_errors": len(harness), "seconds": round(time.time() - t0, 1),
-                                 "first": (r.stdout.splitlines()[r.stdout.splitlines().index(viol[0]) + 1][:200] if viol and r.stdout.splitlines().index(viol[0]) + 1 < len(r.stdout.splitlines()) else "")}
-                hit = [p for p in props if caught[p]["violations"] > 0]
-                print(f"{name}: caught by {hit or 'NOTHING'}  {json.dumps(caught)[:300]}")
-                results.append({"mutant": name, "note": note, "expected": props, "caught_by": hit, "detail": caught})
-            revert()
-    finally:
-        revert()
+                print(f"{r['mutant']}: caught by {r['caught_by'] or 'NOTHING'}  {json.dumps(r['detail'])[:300]}", flush=True)
     os.makedirs(f"{VERIF}/out", exist_ok=True)
     out = f"{VERIF}/out/mutants-{mode}.json"
     json.dump(results, open(out, "w"), indent=1)
